@@ -2,6 +2,7 @@ SPECIFICATION Spec
 CONSTANTS
   Fams <- MutantFams
   D_SwapDelete = TRUE
+  M_BuffersPerInstance = TRUE
   Cap = 2
   M_DepthBuffersDisjoint = TRUE
   M_AllDocumentKindsFiltered = FALSE
